@@ -187,7 +187,13 @@ def judge(src, *, optimize=True, power_pole_type=None, rnd=None, scalar_own_sign
     for name, val in outs.items():
         anchors = find_anchors(c, name)
         if not anchors:
-            pv.outputs.append(_judge_constant(c, B, name, val, overrides))
+            ov = _judge_constant(c, B, name, val, overrides)
+            if ov.status == "missing" and optimize:
+                twin = _identical_earlier_output(B, outs, name, c)
+                if twin:
+                    ov = OutputVerdict(name, "duplicate-missing",
+                                       f"no anchor: CSE merged it with the identical earlier result '{twin}'")
+            pv.outputs.append(ov)
             continue
         for a in anchors:
             try:
@@ -246,6 +252,31 @@ def judge(src, *, optimize=True, power_pole_type=None, rnd=None, scalar_own_sign
             status = "crosstalk" if ist == "same" else "mismatch"
             pv.outputs.append(OutputVerdict(name, status, f"signal {label}", witness))
     return pv
+
+
+def _same_value(B, a, b):
+    if type(a) is not type(b):
+        return False
+    if isinstance(a, SigV):
+        if a.type != b.type:
+            return False
+        return _differs(B, [("v", a.v, b.v)], timeout=3000)[0] == "same"
+    if isinstance(a, BunV):
+        if set(a.members) != set(b.members):
+            return False
+        return _differs(B, [(k, a.members[k], b.members[k]) for k in a.members], timeout=3000)[0] == "same"
+    return False
+
+
+def _identical_earlier_output(B, outs, name, c):
+    """Name of another exposed result that denotes exactly the same value and type (class of
+    KF-C10-cse-duplicate-name-lost)."""
+    for other, val in outs.items():
+        if other == name:
+            continue
+        if _same_value(B, outs[name], val) and find_anchors(c, other):
+            return other
+    return None
 
 
 def _judge_constant(c, B, name, val, overrides):
